@@ -3,6 +3,7 @@ use serde_json::Value;
 
 pub mod c01;
 pub mod c02;
+pub mod c03;
 pub mod c04;
 pub mod c05;
 pub mod c06;
@@ -22,6 +23,7 @@ pub fn run(id: &str, eng: &Engine) {
     match id {
         "C01" => c01::run(eng),
         "C02" => c02::run(eng),
+        "C03" => c03::run(eng),
         "C04" => c04::run(eng),
         "C05" => c05::run(eng),
         "C06" => c06::run(eng),
@@ -47,6 +49,7 @@ pub fn replay(id: &str, eng: &Engine, stage: &str, case: &Value) -> CaseResult {
     match id {
         "C01" => c01::replay(eng, stage, case),
         "C02" => c02::replay(eng, stage, case),
+        "C03" => c03::replay(eng, stage, case),
         "C04" => c04::replay(eng, stage, case),
         "C05" => c05::replay(eng, stage, case),
         "C06" => c06::replay(eng, stage, case),
